@@ -194,6 +194,8 @@ pub async fn opimpl(db: &Database, cmd: &Value) -> Value {
                             "min" => b.add(Expr::Min(col)),
                             "max" => b.add(Expr::Max(col)),
                             "count_distinct" => b.add(Expr::CountDistinct(col)),
+                            "first" => b.add(Expr::First(col)),
+                            "last" => b.add(Expr::Last(col)),
                             _ => b.add(Expr::RowCount),
                         }
                     })
